@@ -15,6 +15,14 @@ from dask.utils import random_state_data
 from dask_expr._expr import Expr
 
 
+def _process_val_weights(vals_and_weights, npartitions, dtype_info):
+    # a column without a single non-missing value has no quantiles; treat it like an
+    # empty frame (all-missing divisions) instead of failing in np.linspace
+    if vals_and_weights and len(vals_and_weights[0]) == 0:
+        vals_and_weights = ()
+    return process_val_weights(vals_and_weights, npartitions, dtype_info)
+
+
 class RepartitionQuantiles(Expr):
     _parameters = ["frame", "input_npartitions", "upsample", "random_state"]
     _defaults = {"upsample": 1.0, "random_state": None}
@@ -75,7 +83,7 @@ class RepartitionQuantiles(Expr):
             (self._name, 0): (
                 pd.Series,
                 (
-                    process_val_weights,
+                    _process_val_weights,
                     merged_key,
                     self.input_npartitions,
                     (self._name, 0, 0),
